@@ -160,26 +160,29 @@ impl Constraint {
 /// Array indices are identified unless they are known to be different, since
 /// the same element may be accessed using different index expressions (cf.
 /// `MaybeEqual` in the unused output signal pass).
-fn may_alias(first: &[AccessType], second: &[AccessType]) -> bool {
+fn may_alias(first: &[AccessType], second: &[AccessType], prime: &BigInt) -> bool {
     use AccessType::*;
     first.iter().zip(second.iter()).all(|accesses| match accesses {
         (ComponentAccess(first), ComponentAccess(second)) => first == second,
-        (ArrayAccess(first), ArrayAccess(second)) => match (index_value(first), index_value(second)) {
-            (Some(first), Some(second)) => first == second,
-            _ => true,
-        },
+        (ArrayAccess(first), ArrayAccess(second)) => {
+            match (index_value(first, prime), index_value(second, prime)) {
+                (Some(first), Some(second)) => first == second,
+                _ => true,
+            }
+        }
         _ => false,
     })
 }
 
 /// Returns the value of an index expression, if it is known. The value of a
 /// literal is known also if value propagation was cut short before it reached
-/// the expression (otherwise `r[0]` and `r[1]` would be identified then).
-fn index_value(index: &Expression) -> Option<BigInt> {
+/// the expression (otherwise `r[0]` and `r[1]` would be identified then). It is
+/// the field element which value propagation would find.
+fn index_value(index: &Expression, prime: &BigInt) -> Option<BigInt> {
     use ValueReduction::*;
     match (index.value(), index) {
         (Some(FieldElement { value }), _) => Some(value.clone()),
-        (None, Expression::Number(_, value)) => Some(value.clone()),
+        (None, Expression::Number(_, value)) => Some(value % prime),
         _ => None,
     }
 }
@@ -228,7 +231,12 @@ impl SignalUse {
     }
 
     /// Get the set of constraints that mention the given signal.
-    fn get_constraints(&self, signal: &VariableName, access: &Vec<AccessType>) -> Vec<&Constraint> {
+    fn get_constraints(
+        &self,
+        signal: &VariableName,
+        access: &Vec<AccessType>,
+        prime: &BigInt,
+    ) -> Vec<&Constraint> {
         self.constraints
             .iter()
             .filter(|constraint| {
@@ -237,13 +245,12 @@ impl SignalUse {
                     let signals = expression.signals_read().iter();
                     let ports = expression.components_read().iter();
                     signals.chain(ports).any(|signal_use| {
-                        signal_use.name() == signal && may_alias(signal_use.access(), access)
+                        signal_use.name() == signal && may_alias(signal_use.access(), access, prime)
                     })
                 });
-                let is_target = constraint
-                    .target
-                    .as_ref()
-                    .is_some_and(|(name, target)| name == signal && may_alias(target, access));
+                let is_target = constraint.target.as_ref().is_some_and(|(name, target)| {
+                    name == signal && may_alias(target, access, prime)
+                });
                 is_read || is_target
             })
             .collect()
@@ -251,8 +258,13 @@ impl SignalUse {
 
     /// Returns the corresponding `Meta` of a constraint containing the given
     /// signal, or `None` if no such constraint exists.
-    fn get_constraint_metas(&self, signal: &VariableName, access: &Vec<AccessType>) -> Vec<Meta> {
-        self.get_constraints(signal, access)
+    fn get_constraint_metas(
+        &self,
+        signal: &VariableName,
+        access: &Vec<AccessType>,
+        prime: &BigInt,
+    ) -> Vec<Meta> {
+        self.get_constraints(signal, access, prime)
             .iter()
             .map(|constraint| constraint.meta.clone())
             .collect()
@@ -284,8 +296,11 @@ pub fn find_signal_assignments(cfg: &Cfg) -> ReportCollection {
                 &assignment.meta,
             ))
         } else {
-            let constraint_metas =
-                signal_use.get_constraint_metas(&assignment.signal, &assignment.access);
+            let constraint_metas = signal_use.get_constraint_metas(
+                &assignment.signal,
+                &assignment.access,
+                cfg.constants().prime(),
+            );
             reports.push(build_assignment_report(
                 &assignment.signal,
                 &assignment.access,
